@@ -169,6 +169,76 @@ def mutate(rng, b):
     return bytes(b)
 
 
+def capacity_cases():
+    """documents built to cross the capacity thresholds of the VALIDATION and scanner structures (deterministic; run
+    on every run): yields (kind, doc bytes, ext bytes, [(api, scanner, val, flags), ...])"""
+    dtd_cfgs = [("sax2", "I", "always", "-"), ("dom", "D", "always", "-"), ("sax", "I", "auto", "n"), ("domls", "D", "always", "n")]
+    xsd_cfgs = [("sax2", "I", "always", "ns"), ("dom", "S", "always", "nsf"), ("sax", "S", "auto", "ns"), ("domls", "I", "always", "ns")]
+    plain_cfgs = [("sax2", "I", "never", "n"), ("dom", "W", "never", "n"), ("sax", "S", "never", "n"), ("domls", "D", "never", "-")]
+    out = []
+
+    def dtd_doc(decls, body, root="r"):
+        return ("<!DOCTYPE %s [\n%s\n]>\n<%s>%s</%s>" % (root, decls, root, body, root)).encode()
+
+    # (a) DFA subset construction: ((a|b)*,a,(a|b)^k) needs ~2^k states from k+3 leaves -> buildDFA's arrays (4 x leaves) grow
+    for k in range(2, 11):
+        model = "((a|b)*,a" + ",(a|b)" * k + ")"
+        decls = "<!ELEMENT r %s><!ELEMENT a EMPTY><!ELEMENT b EMPTY>" % model
+        out.append(("dfa-dtd-%d" % k, dtd_doc(decls, "<b/><a/>" + "<b/>" * k), b"", dtd_cfgs[:2]))
+        out.append(("dfa-dtd-bad-%d" % k, dtd_doc(decls, "<a/>" + "<b/>" * (k - 1)), b"", dtd_cfgs[:2]))
+    # many leaves: > 64 / > 128 (CMStateSet switches representation), sequence, choice and mixed models
+    for n in (63, 64, 65, 66, 127, 128, 129, 130, 200):
+        names = ["e%d" % i for i in range(n)]
+        edecl = "".join("<!ELEMENT %s EMPTY>" % x for x in names)
+        out.append(("leaves-seq-%d" % n, dtd_doc("<!ELEMENT r (%s)>%s" % (",".join(x + "?" for x in names), edecl), "<e1/><e5/><e%d/>" % (n - 1)), b"", dtd_cfgs[:2]))
+        out.append(("leaves-choice-%d" % n, dtd_doc("<!ELEMENT r ((%s)*,e0)>%s" % ("|".join(names), edecl), "<e3/><e%d/><e0/>" % (n - 1)), b"", dtd_cfgs[:2]))
+        out.append(("leaves-mixed-%d" % n, dtd_doc("<!ELEMENT r (#PCDATA|%s)*>%s" % ("|".join(names), edecl), "t<e2/>u<e%d/>" % (n - 1)), b"", dtd_cfgs[:1]))
+    # XML Schema: occurrence expansion and the same exponential model
+    def xsd(content, extra=""):
+        return ('<xs:schema xmlns:xs="http://www.w3.org/2001/XMLSchema"><xs:element name="r"><xs:complexType>%s</xs:complexType>%s</xs:element>'
+                '<xs:element name="a"/><xs:element name="b"/></xs:schema>' % (content, extra)).encode()
+    def xdoc(body, attrs=""):
+        return ('<r xmlns:xsi="http://www.w3.org/2001/XMLSchema-instance" xsi:noNamespaceSchemaLocation="s.xsd"%s>%s</r>' % (attrs, body)).encode()
+    ab = '<xs:element ref="a"/><xs:element ref="b"/>'
+    for k in (2, 4, 6, 8, 9):
+        c = ('<xs:sequence><xs:choice minOccurs="0" maxOccurs="unbounded">%s</xs:choice><xs:element ref="a"/>'
+             '<xs:choice minOccurs="%d" maxOccurs="%d">%s</xs:choice></xs:sequence>' % (ab, k, k, ab))
+        out.append(("dfa-xsd-%d" % k, xdoc("<b/><a/>" + "<b/>" * k), xsd(c), xsd_cfgs[:2]))
+    for lo, hi in ((2, 40), (30, 70), (1, 130), (100, 100)):
+        c = '<xs:sequence><xs:element ref="a" minOccurs="%d" maxOccurs="%d"/><xs:element ref="b" minOccurs="0" maxOccurs="%d"/></xs:sequence>' % (lo, hi, hi)
+        out.append(("occurs-xsd-%d-%d" % (lo, hi), xdoc("<a/>" * (lo + 1) + "<b/>" * 3), xsd(c), xsd_cfgs[:2]))
+    # identity constraint with several fields and many rows; many IDs / IDREFs
+    rows = "".join('<a k1="%d" k2="x%d" k3="%d"/>' % (i, i % 7, i * 3) for i in range(300))
+    idc = ('<xs:schema xmlns:xs="http://www.w3.org/2001/XMLSchema"><xs:element name="r"><xs:complexType><xs:sequence>'
+           '<xs:element name="a" maxOccurs="unbounded"><xs:complexType><xs:attribute name="k1"/><xs:attribute name="k2"/><xs:attribute name="k3"/>'
+           '</xs:complexType></xs:element></xs:sequence></xs:complexType>'
+           '<xs:key name="K"><xs:selector xpath="a"/><xs:field xpath="@k1"/><xs:field xpath="@k2"/><xs:field xpath="@k3"/></xs:key>'
+           '<xs:keyref name="R" refer="K"><xs:selector xpath="a"/><xs:field xpath="@k1"/><xs:field xpath="@k2"/><xs:field xpath="@k3"/></xs:keyref>'
+           '</xs:element></xs:schema>').encode()
+    out.append(("idc-many", xdoc(rows + '<a k1="1" k2="x1" k3="3"/>'), idc, xsd_cfgs[:2]))
+    ids = "".join('<a id="i%d" r="i%d"/>' % (i, (i * 7) % 600) for i in range(600))
+    out.append(("ids-many", dtd_doc("<!ELEMENT r (a*)><!ELEMENT a EMPTY><!ATTLIST a id ID #REQUIRED r IDREF #IMPLIED rs IDREFS #IMPLIED>",
+                                    ids + '<a id="z" rs="%s nope"/>' % " ".join("i%d" % i for i in range(0, 600, 3))), b"", dtd_cfgs))
+    # (b) declared attributes, attributes on a tag, namespace prefixes per element, entities, entity nesting
+    for n in (63, 64, 65, 127, 128, 129, 260):
+        atts = " ".join("a%d CDATA 'd%d'" % (i, i) for i in range(n))
+        out.append(("attdecl-%d" % n, dtd_doc("<!ELEMENT r ANY><!ATTLIST r %s>" % atts, "t"), b"", dtd_cfgs[:2]))
+    for n in (31, 32, 33, 99, 100, 101, 128, 129, 300):
+        tag = "<e " + " ".join('a%d="v%d"' % (i, i) for i in range(n)) + "/>"
+        out.append(("attrs-on-tag-%d" % n, ("<r>%s</r>" % tag).encode(), b"", plain_cfgs))
+    for n in (15, 16, 17, 20, 31, 32, 33, 64, 65, 200):
+        ns = " ".join('xmlns:p%d="urn:%d"' % (i, i) for i in range(n))
+        out.append(("prefixes-%d" % n, ('<r %s p%d:a="1"><p0:e p%d:b="2"/></r>' % (ns, n - 1, n // 2)).encode(), b"", plain_cfgs[:3]))
+    ents = "".join('<!ENTITY e%d "v%d &#%d;">' % (i, i, 65 + i % 26) for i in range(400))
+    out.append(("entities-many", dtd_doc("<!ELEMENT r ANY>" + ents, "".join("&e%d;" % i for i in range(0, 400, 3))), b"", dtd_cfgs))
+    for depth in (10, 31, 32, 33, 64, 100):
+        nest = "".join('<!ENTITY n%d "(&n%d;)">' % (i, i + 1) for i in range(depth)) + '<!ENTITY n%d "bottom">' % depth
+        out.append(("entity-nesting-%d" % depth, dtd_doc("<!ELEMENT r ANY>" + nest, "&n0;<e a='&n1;'/>"), b"", dtd_cfgs[:2]))
+    for n in (31, 32, 33, 39, 40, 41, 49, 50, 51, 63, 64, 65, 100):
+        out.append(("depth-%d" % n, ("<e>" * n + "t" + "</e>" * n).encode(), b"", plain_cfgs[:2] + [("sax2", "I", "always", "ns")]))
+    return out
+
+
 def gen_cases(ctx, consts):
     rng = ctx.rng
     thorough = ctx.tier == "thorough"
@@ -189,6 +259,10 @@ def gen_cases(ctx, consts):
         a, s, v, f = conf or cfg(base_flags)
         cases.append((kind, "parse %s %s %s %s %s %s %s" % (a, s, v, f, chunks, spec_of(doc_parts), hx(ext))))
 
+    # 0. capacity thresholds of validators / scanner structures (deterministic part)
+    for kind, doc, ext, cfgs in capacity_cases():
+        for conf in cfgs:
+            cases.append(("capacity-" + kind, "parse %s %s %s %s 0 %s %s" % (conf[0], conf[1], conf[2], conf[3], hx(doc), hx(ext))))
     corp = corpus(rng)
     # 1. every corpus document under the full configuration matrix (valid / nearly valid inputs)
     for name, doc, ext, fl in corp:
@@ -458,6 +532,7 @@ def run(ctx):
     outcome = {"ok-clean": 0, "ok-errors": 0, "exc": 0}
     cfgs = set()
     nviol = 0
+    known_sig = {}
     while pos < len(reqs) and nviol < 5:
         ans, status, err = run_watchdog(xh, reqs[pos:], SAN_ENV)
         for k, a in enumerate(ans):
@@ -482,11 +557,26 @@ def run(ctx):
         if status == "ok":
             break
         # the request at `pos` crashed, tripped a sanitizer or hung
+        sig_hit = None
+        if status == "crash":
+            for f in ctx.known:
+                sig = f.get("signature")
+                if sig and all(x in err for x in sig):
+                    sig_hit = f
+                    break
+        if sig_hit is not None:
+            known_sig[sig_hit["id"]] = known_sig.get(sig_hit["id"], 0) + 1
+            kinds["known-" + sig_hit["id"]] = kinds.get("known-" + sig_hit["id"], 0) + 1
+            pos += 1
+            continue
         nviol += 1
         what = {"crash": "crash or sanitizer report (ASan/UBSan) while parsing", "hang": "no answer within 10 s"}[status]
         ctx.violation("sanitizer" if status == "crash" else "hang",
                       {"request": reqs[pos], "kind": cases[pos][0], "status": status, "stderr": err[-5000:], "what": what})
         pos += 1
+    for fid, n in sorted(known_sig.items()):
+        f = ctx.find_known(fid)
+        ctx.known_finding(fid, "%d generated parses end in the sanitizer report of this finding (%s)" % (n, " / ".join(f["signature"])))
     ctx.coverage["input_distribution"] = kinds
     ctx.coverage["outcomes"] = outcome
     ctx.coverage["configurations_exercised"] = len(cfgs)
@@ -499,6 +589,9 @@ def run(ctx):
         ctx.violation("obligation", {"what": "Coq obligation no longer checks and the exploration found no failing input",
                                      "failed": failed, "output": out[-3000:]}, no_input=True)
     ctx.coverage["rule"] = (
+        "240 deterministic capacity-threshold parses (exponential DFA models via DTD and XML Schema, 63..200 leaves, occurrence "
+        "expansions, declared attributes / attributes on a tag / namespace prefixes / entities / nesting / depth / IDs / identity "
+        "constraint rows across their growth thresholds, validation on); "
         "14 corpus documents (internal/external DTD with parameter entities and conditional sections, external entity, "
         "schema with identity constraint, namespaces, XML 1.1, UTF-16 LE/BE, ISO-8859-1, UCS-4, depth 40, 45 attributes, "
         "3000-character names) x {SAXParser, SAX2XMLReader, XercesDOMParser, DOMLSParser} x {IG, WF, DG, SG} scanners; "
